@@ -84,10 +84,10 @@ RULE = ('full Cartesian product of shape class x size (pairs) x angle x angle re
         'number vs reference membership on the shape-frame query lattice outside the 0.5 % band), annulus hole/orientation, '
         'point/text/line placement and the effective visual attributes are compared; a state is non-trivial when sure '
         'members and sure non-members both survive the band filter (point/text/line: always)')
-BOUNDS = {'quick': 'sizes {1,3,7.5} (all width x height pairs), 5 angles alternating deg/rad, 3 centres, 3 origins, 7 polygons x 3 scales, '
+BOUNDS = {'quick': 'sizes {1,3,7.5} (all width x height pairs), 5 angles alternating deg/rad, 3 centres, 4 origins, 7 polygons x 3 scales, '
                    'regular polygons n in {3,5,6}, 3 annulus classes x 2 outer factors, point/text/line, 81 bounding boxes; '
                    'visual x kwargs matrix on every 4th state per class',
-          'thorough': 'sizes {1,3,7.5} pairs, 11 angles x {Quantity in deg, Angle in rad}, 4 centres, 4 origins, same classes; '
+          'thorough': 'sizes {1,3,7.5} pairs, 11 angles x {Quantity in deg, Angle in rad}, 4 centres, 6 origins, same classes; '
                       'full visual x kwargs matrix on every state'}
 ASSUMPTIONS = ['numpy elementwise arithmetic is trusted',
                'query positions within 0.5 % of the size from a boundary are excepted (curve-approximation tolerance, derived in the module docstring)',
@@ -101,7 +101,8 @@ NCURVE = 64
 
 # ------------------------------------------------------------------ axes ----
 SIZES = [1.0, 3.0, 7.5]
-ORIGINS = [(0.0, 0.0), (1.5, -2.0), (-100.0, 40.0), (8000.5, -3000.25)]
+# origins on one image axis ((10, 0), (0, -6)): one component zero, the other not
+ORIGINS = [(0.0, 0.0), (1.5, -2.0), (10.0, 0.0), (0.0, -6.0), (-100.0, 40.0), (8000.5, -3000.25)]
 OUTER_FACTORS = [(1.25, 1.25), (4.0, 1.5)]
 POLY_SCALES = [1.0, 3.0, 7.5]
 REGPOLY_N = [3, 5, 6]
@@ -782,7 +783,7 @@ def _ndir(seed):
 
 
 def shards(tier, seed):
-    origins = ORIGINS[:3] if tier == 'quick' else ORIGINS
+    origins = ORIGINS[:4] if tier == 'quick' else ORIGINS
     small = ('circle', 'circleannulus', 'point', 'text', 'line', 'bbox', 'polygon')
     phase = int(seed) % 4
     cases = []
